@@ -139,7 +139,9 @@ class Game(AsyncMode):
 
         # Wait for player to be added before game can start
         # TODO: Add timeout to wait
-        await self._at_least_one_player_event.wait()
+        if not (self.ending and not self.player_list and not self._player_add_in_progress):
+            # (a game which was ended during game_starting cannot get a player any more: do not wait for one)
+            await self._at_least_one_player_event.wait()
 
         await self.machine.events.post_async('game_started')
         '''event: game_started
